@@ -3,6 +3,7 @@ package props
 // Rules added after the fifth blind round of seeded changes (per-file prompts, DESIGN 10.12).
 
 import (
+	"fmt"
 	"go/token"
 	"go/types"
 	"sort"
@@ -16,18 +17,23 @@ import (
 
 // round5Rules: which of the rules of this file each property runs after its own.
 var round5Rules = map[string][]func(*report.Ctx){
-	"C01": {checkProxyWriteKeepsBody},
+	"C01": {checkProxyWriteKeepsBody, checkNoServerTimeouts},
 	"C04": {checkSuspendConsumesRelease},
-	"C05": {checkTeardownEntryPointsUnconditional, checkTimeoutArmAlwaysResets},
-	"C06": {checkInitFailuresClosed},
-	"C07": {checkInitFailuresClosed, checkTeardownEntryPointsUnconditional},
-	"C08": {checkTeardownEntryPointsUnconditional},
+	"C05": {checkTeardownEntryPointsUnconditional, checkTimeoutArmAlwaysResets, checkNoServerTimeouts},
+	"C06": {checkInitFailuresClosed, checkAppCtxMiddlewareOnRouters, checkContextClearedOnlyByReset, checkSingleEventSender, checkErrorResponseTypeVerbatim, checkBootstrapFallbackTypes, checkRuntimeLookedUpAfterSuccess},
+	"C19": {checkSingleEventSender},
+	"C15": {checkBootstrapFallbackTypes, checkLaunchErrorVerbatim},
+	"C07": {checkInitFailuresClosed, checkTeardownEntryPointsUnconditional, checkSingleEventSender, checkRuntimeLookedUpAfterSuccess},
+	"C08": {checkTeardownEntryPointsUnconditional, checkHandlerClosuresStateless},
+	"C20": {checkHandlerClosuresStateless},
 	"C09": {checkAgentReleaseUnconditional, checkSuspendConsumesRelease, checkTeardownEntryPointsUnconditional, checkDeadlineUnit, checkShutdownFuncOrder},
-	"C12": {checkCurrentInvokeIDTruthful},
+	"C12": {checkCurrentInvokeIDTruthful, checkAppCtxMiddlewareOnRouters, checkJSONReplyBufferOwned},
 	"C02": {checkCurrentInvokeIDTruthful},
-	"C13": {checkSuspendConsumesRelease, checkExtensionsFlagOn},
+	"C13": {checkSuspendConsumesRelease, checkExtensionsFlagOn, checkAppCtxMiddlewareOnRouters, checkJSONReplyBufferOwned, checkEmulatorInitCopy},
 	"C03": {checkExtensionsFlagOn},
-	"C14": {checkProxyWriteKeepsBody},
+	"C14": {checkProxyWriteKeepsBody, checkBufferedDirectOversize},
+	"C17": {checkBufferedDirectOversize, checkStreamingModeOverride, checkBucketAcceptsValidCombinations, checkMetricsNeverNil, checkRefillAlwaysAnnounced},
+	"C16": {checkEmulatorInitCopy, checkSplitEnvVerbatim},
 	"C18": {checkUpdateCredentialsApplied, checkInitTypeBeforeServer},
 }
 
@@ -228,6 +234,8 @@ func checkUpdateCredentialsApplied(c *report.Ctx) {
 	}
 	c.Check("R-ORDER", an.FuncName(f)+"/success-means-replaced", "UpdateCredentials returns nil only after SetCredentials ran (the credentials endpoint reflects the most recent restore, whatever the expiry dates)", ok && n >= 1, where, n, "success exits: %d, all after SetCredentials: %v", n, ok)
 }
+
+func fmtSscan(s string, v *int64) (int, error) { return fmt.Sscan(s, v) }
 
 var _ = types.Universe
 var _ = sort.Strings
@@ -441,4 +449,795 @@ func checkInitTypeBeforeServer(c *report.Ctx) {
 	srv := an.CallsTo(f, "L/rapi.NewServer")
 	ok := len(st) == 1 && len(srv) == 1 && an.InstrDominates(st[0], srv[0])
 	c.Check("R-ORDER", an.FuncName(f)+"/init-type-before-router", "the init type (snapshot mode or not) is stored in the application context before the Runtime API server is constructed: the router decides at construction time whether the restore and credentials routes exist", ok, fpos(f), len(st)+len(srv), "StoreInitType: %d, NewServer: %d, in that order: %v", len(st), len(srv), ok)
+}
+
+// serveOfCtor resolves the ServeHTTP method of the handler a constructor ("L/rapi/handler.NewXHandler") returns.
+func serveOfCtor(c *report.Ctx, ctor string) *ssa.Function {
+	i := strings.LastIndex(ctor, ".")
+	if i < 0 || !strings.HasPrefix(ctor, "L/") {
+		return nil
+	}
+	cf := c.P.Func(ctor[:i], ctor[i+1:])
+	if cf == nil {
+		return nil
+	}
+	for _, e := range an.Exits(cf) {
+		if len(e.Vals) != 1 {
+			continue
+		}
+		t := an.Strip(e.Vals[0], false).Type()
+		tn := an.TypeName(t)
+		j := strings.LastIndex(tn, ".")
+		if j < 0 || !strings.HasPrefix(tn, "L/") {
+			continue
+		}
+		for _, m := range methodsOf(c, tn[:j], tn[j+1:]) {
+			if m.Name() == "ServeHTTP" {
+				return m
+			}
+		}
+	}
+	return nil
+}
+
+// mwName: the middleware constructor or function an argument of Use denotes.
+func mwName(v ssa.Value) string {
+	name, wr := decodeHandler(v)
+	if len(wr) > 0 {
+		return "L/rapi/middleware." + wr[0]
+	}
+	return name
+}
+
+// checkAppCtxMiddlewareOnRouters: every router with a handler or middleware that reads the application context
+// off the request installs the middleware that puts it there, before anything that reads it.
+func checkAppCtxMiddlewareOnRouters(c *report.Ctx) {
+	fromReq := c.P.Func("L/appctx", "FromRequest")
+	if fromReq == nil {
+		c.Unresolved("ANCHOR", "L/appctx.FromRequest", "function not found")
+		return
+	}
+	// reads: the function, its closures and what they call statically (not what a `next.ServeHTTP` may dispatch to)
+	reads := func(fs ...*ssa.Function) bool {
+		seen := map[*ssa.Function]bool{}
+		var work []*ssa.Function
+		for _, f := range fs {
+			if f != nil {
+				work = append(work, f)
+			}
+		}
+		for len(work) > 0 {
+			f := work[len(work)-1]
+			work = work[:len(work)-1]
+			if seen[f] {
+				continue
+			}
+			seen[f] = true
+			if f == fromReq {
+				return true
+			}
+			work = append(work, f.AnonFuncs...)
+			an.AllInstrs(f, func(in ssa.Instruction) {
+				if call, ok := in.(ssa.CallInstruction); ok {
+					if sc := call.Common().StaticCallee(); sc != nil && sc.Pkg != nil && strings.HasPrefix(sc.Pkg.Pkg.Path(), "go.amzn.com") {
+						work = append(work, sc)
+					}
+				}
+			})
+		}
+		return false
+	}
+	mw := func(name string) *ssa.Function { return c.P.Func("L/rapi/middleware", name) }
+	nrouters := 0
+	for _, f := range repoFuncs(c) {
+		if !strings.HasPrefix(an.FuncName(f), "L/rapi.") || f.Parent() != nil || len(an.CallsTo(f, "github.com/go-chi/chi.NewRouter")) == 0 {
+			continue
+		}
+		nrouters++
+		var needers []ssa.Instruction
+		var why []string
+		for _, r := range routesOf(c, f) {
+			need := reads(serveOfCtor(c, r.handlerCtor))
+			for _, w := range r.wrappers {
+				if reads(mw(w)) {
+					need = true
+				}
+			}
+			if need {
+				why = append(why, r.method+" "+r.pattern)
+			}
+		}
+		var install ssa.Instruction
+		for _, u := range an.CallsTo(f, "github.com/go-chi/chi.Mux.Use") {
+			for _, a := range u.Common().Args[1:] {
+				name := mwName(a)
+				// variadic: the slice's elements
+				if sl, ok := a.(*ssa.Slice); ok {
+					if al, ok := sl.X.(*ssa.Alloc); ok {
+						for _, ref := range *al.Referrers() {
+							if ia, ok := ref.(*ssa.IndexAddr); ok {
+								for _, r2 := range *ia.Referrers() {
+									if st, ok := r2.(*ssa.Store); ok {
+										name = mwName(st.Val)
+									}
+								}
+							}
+						}
+					}
+				}
+				short := strings.TrimPrefix(name, "L/rapi/middleware.")
+				if short == "AppCtxMiddleware" {
+					install = u
+					continue
+				}
+				if m := mw(short); m != nil && reads(m) {
+					needers = append(needers, u)
+					why = append(why, "middleware "+short)
+				}
+			}
+		}
+		ok := len(why) == 0 || install != nil
+		pos := fpos(f)
+		if ok && install != nil {
+			for _, u := range needers {
+				if !an.InstrDominates(install, u) {
+					ok = false
+					pos = an.InstrPos(u)
+				}
+			}
+			an.AllInstrs(f, func(in ssa.Instruction) {
+				if call, isC := in.(*ssa.Call); isC && strings.HasPrefix(an.Callee(call), "github.com/go-chi/chi.Mux.") && !an.IsCallTo(in, "github.com/go-chi/chi.Mux.Use") && !an.InstrDominates(install, in) {
+					ok = false
+					pos = an.InstrPos(in)
+				}
+			})
+		}
+		c.Check("R-WIRE", an.FuncName(f)+"/application-context-installed", "a router whose handlers or middleware read the application context off the request installs AppCtxMiddleware before them (otherwise the handler panics after its state transition and the report is never answered)", ok, pos, len(why)+1, "readers of the request's application context: %v; AppCtxMiddleware installed: %v", why, install != nil)
+	}
+	c.Check("R-COUNT", "L/rapi/routers", "the router constructors were found", nrouters >= 5, token.NoPos, nrouters, "%d", nrouters)
+}
+
+// checkContextClearedOnlyByReset: the execution context is re-initialised by the reset entry point only (the
+// shutdown after a failed init must leave the state as it is: the suppressed init of the next invocation fails on
+// it and so reports the fault).
+func checkContextClearedOnlyByReset(c *report.Ctx) {
+	sites := callSites(c, "L/rapid.rapidContext.Clear", "L/interop.RapidContext.Clear")
+	callers := uniq(siteFns(sites))
+	ok := len(callers) == 1 && stripAnon(callers[0]) == "L/rapidcore.SandboxContext.Reset"
+	pos := token.NoPos
+	for _, s := range sites {
+		if stripAnon(an.FuncName(s.Fn)) != "L/rapidcore.SandboxContext.Reset" {
+			pos = an.InstrPos(s.Call)
+		}
+	}
+	c.Check("R-WHO", "L/rapid.rapidContext.Clear/callers", "the execution context is cleared by the sandbox's Reset only", ok, pos, len(sites), "callers: %v", callers)
+}
+
+// checkSingleEventSender: the local supervisor publishes an event at one place only, after the process was waited for.
+func checkSingleEventSender(c *report.Ctx) {
+	var sends []*ssa.Send
+	var where []string
+	for _, f := range repoFuncs(c) {
+		if !strings.HasPrefix(an.FuncName(f), supP+".") && !strings.HasPrefix(an.FuncName(f), "L/supervisor.") {
+			continue
+		}
+		for _, s := range allSends(f) {
+			if chanName(s.Chan) == "events" {
+				sends = append(sends, s)
+				where = append(where, an.FuncName(f))
+			}
+		}
+	}
+	ok := len(sends) == 1
+	pos := token.NoPos
+	if len(sends) > 0 {
+		pos = an.InstrPos(sends[len(sends)-1])
+	}
+	afterWait := false
+	if ok {
+		for _, w := range an.CallsTo(sends[0].Parent(), "os/exec.Cmd.Wait") {
+			if an.InstrDominates(w, sends[0]) {
+				afterWait = true
+			}
+		}
+	}
+	c.Check("R-COUNT", "L/supervisor.LocalSupervisor.events/single-sender", "the supervisor publishes events at exactly one place, after cmd.Wait returned for a process that was started (a launch failure is reported by Exec's error alone: an event for a name without exit channel would bring the emulator down)", ok && afterWait, pos, len(sends), "send sites: %v; after cmd.Wait: %v", where, afterWait)
+}
+
+// checkErrorResponseTypeVerbatim: the platform's error document names the fault type it was given.
+func checkErrorResponseTypeVerbatim(c *report.Ctx) {
+	f := fn(c, "L/interop", "GetErrorResponseWithFormattedErrorMessage")
+	if f == nil || len(f.Params) == 0 {
+		return
+	}
+	n, ok, verbatim := 0, true, 0
+	pos := fpos(f)
+	for _, st := range an.Stores(f, "L/interop.FunctionError", "Type") {
+		n++
+		v := an.Strip(st.Val, true)
+		if p, isP := v.(*ssa.Parameter); isP && p == f.Params[0] {
+			verbatim++
+			continue
+		}
+		if _, isC := v.(*ssa.Const); isC {
+			continue
+		}
+		ok = false
+		pos = an.InstrPos(st)
+	}
+	c.Check("R-WIRE", an.FuncName(f)+"/type-verbatim", "the error document carries the fault type handed in, unaltered (Extension.Crash, Extension.ExitError, Sandbox.* are not of the Runtime.X/Function.X form a sanitiser lets through)", ok && verbatim >= 1, pos, n, "stores of FunctionError.Type: %d, of the parameter itself: %d, all parameter or constant: %v", n, verbatim, ok)
+}
+
+// checkBootstrapFallbackTypes: a bootstrap that cannot be resolved is recorded as an invalid entry point, a
+// working directory that cannot be resolved as an invalid working directory.
+func checkBootstrapFallbackTypes(c *report.Ctx) {
+	f := fn(c, "L/rapid", "doRuntimeBootstrap")
+	if f == nil {
+		return
+	}
+	facts := an.NewFacts(f)
+	want := map[string]string{"Cmd": "Runtime.InvalidEntrypoint", "Cwd": "Runtime.InvalidWorkingDir"}
+	errOf := func(meth string) func(ssa.Value) bool {
+		return func(v ssa.Value) bool {
+			cl, idx := an.CallOf(v)
+			return cl != nil && idx == 1 && strings.HasSuffix(an.Callee(cl), "Bootstrap."+meth)
+		}
+	}
+	n := 0
+	var bad []string
+	pos := fpos(f)
+	seen := map[string]bool{}
+	for _, call := range an.CallsTo(f, "L/appctx.StoreFirstFatalError") {
+		s, isC := an.ConstString(call.Common().Args[1])
+		if !isC {
+			continue
+		}
+		for meth, w := range want {
+			if facts.Holds(call.Block(), func(ft an.Fact) bool { return an.CmpNil(ft, false, errOf(meth)) }) {
+				n++
+				seen[meth] = true
+				if s != w {
+					bad = append(bad, sprintf("after a failing %s(): %s", meth, s))
+					pos = an.InstrPos(call)
+				}
+			}
+		}
+	}
+	sort.Strings(bad)
+	c.Check("R-WIRE", an.FuncName(f)+"/fallback-error-types", "the fallback fault type recorded after a failing Cmd() is Runtime.InvalidEntrypoint, after a failing Cwd() Runtime.InvalidWorkingDir", len(bad) == 0 && seen["Cmd"] && seen["Cwd"], pos, n, "constant fault types recorded on the two error paths: %d; wrong: %v", n, bad)
+}
+
+// checkRuntimeLookedUpAfterSuccess: in the invoke handler (a background goroutine nobody recovers) the runtime
+// object is looked up only once doInvoke succeeded; after a failed one (an init interrupted before the runtime was
+// registered, a reset that cleared the registrations) there may be none.
+func checkRuntimeLookedUpAfterSuccess(c *report.Ctx) {
+	f := fn(c, "L/rapid", "handleInvoke")
+	if f == nil {
+		return
+	}
+	facts := an.NewFacts(f)
+	okRes := func(v ssa.Value) bool { return an.IsResultOf(v, "L/rapid.doInvoke", -1) }
+	n, ok := 0, true
+	pos := fpos(f)
+	for _, call := range an.CallsTo(f, "L/core.RegistrationService.GetRuntime", "L/core.registrationServiceImpl.GetRuntime") {
+		v := call.Value()
+		if v == nil {
+			continue
+		}
+		deref := false
+		for _, r := range *v.Referrers() {
+			if bo, isB := r.(*ssa.BinOp); isB && (bo.Op == token.EQL || bo.Op == token.NEQ) {
+				continue
+			}
+			deref = true
+		}
+		if !deref {
+			continue
+		}
+		n++
+		if !facts.Holds(call.Block(), func(ft an.Fact) bool { return an.CmpNil(ft, true, okRes) }) {
+			ok = false
+			pos = an.InstrPos(call)
+		}
+	}
+	c.Check("R-GUARD", an.FuncName(f)+"/runtime-looked-up-after-success", "handleInvoke uses the registered runtime object only on the path where doInvoke returned nil (on the failure path none may be registered, and a nil dereference in this goroutine takes the emulator down)", ok && n >= 1, pos, n, "uses of GetRuntime(): %d, all under doInvoke() == nil: %v", n, ok)
+}
+
+// checkHandlerClosuresStateless: request-handling closures keep no state of their own between requests (state
+// that survives a request survives a reset: nothing clears a variable captured by a middleware closure).
+func checkHandlerClosuresStateless(c *report.Ctx) {
+	var bad []string
+	pos := token.NoPos
+	n := 0
+	rootedAtFreeVar := func(v ssa.Value) bool {
+		for i := 0; i < 8; i++ {
+			switch x := v.(type) {
+			case *ssa.FreeVar:
+				return true
+			case *ssa.FieldAddr:
+				v = x.X
+			case *ssa.IndexAddr:
+				v = x.X
+			case *ssa.UnOp:
+				if x.Op != token.MUL {
+					return false
+				}
+				v = x.X
+			default:
+				return false
+			}
+		}
+		return false
+	}
+	for _, f := range repoFuncs(c) {
+		if f.Parent() == nil || !isHTTPHandlerSig(f.Signature) || strings.HasPrefix(an.FuncName(f), "L/testdata.") {
+			continue
+		}
+		for _, g := range an.WithAnon(f) {
+			n++
+			an.AllInstrs(g, func(in ssa.Instruction) {
+				switch x := in.(type) {
+				case *ssa.Store:
+					if rootedAtFreeVar(x.Addr) {
+						bad = append(bad, an.FuncName(g)+": store to captured "+an.Path(x.Addr))
+						pos = an.InstrPos(in)
+					}
+				case *ssa.MapUpdate:
+					if rootedAtFreeVar(x.Map) {
+						bad = append(bad, an.FuncName(g)+": update of captured map "+an.Path(x.Map))
+						pos = an.InstrPos(in)
+					}
+				case ssa.CallInstruction:
+					sc := x.Common().StaticCallee()
+					if sc == nil || sc.Pkg == nil || sc.Signature.Recv() == nil || len(x.Common().Args) == 0 {
+						return
+					}
+					if p := sc.Pkg.Pkg.Path(); p != "sync/atomic" {
+						return
+					}
+					if oneOf(sc.Name(), "Store", "Add", "Swap", "CompareAndSwap", "And", "Or") && rootedAtFreeVar(x.Common().Args[0]) {
+						bad = append(bad, an.FuncName(g)+": atomic "+sc.Name()+" on captured "+an.Path(x.Common().Args[0]))
+						pos = an.InstrPos(in)
+					}
+				}
+			})
+		}
+	}
+	sort.Strings(bad)
+	c.Check("R-RESET", "handler-closures/no-captured-state", "no request-handling closure (middleware, handler function) writes a variable it captured: such a variable is per-process state that no reset clears", len(bad) == 0 && n >= 5, pos, n, "request-handling closures: %d; writes to captured variables: %v", n, bad)
+}
+
+// checkJSONReplyBufferOwned: the bytes of a JSON reply come from a buffer that belongs to this request alone.
+func checkJSONReplyBufferOwned(c *report.Ctx) {
+	f := fn(c, "L/rapi/rendering", "RenderJSON")
+	if f == nil {
+		return
+	}
+	n, ok := 0, true
+	pos := fpos(f)
+	for _, call := range an.Calls(f, func(s string) bool { return s == "bytes.Buffer.Bytes" }) {
+		n++
+		recv := an.Strip(call.Common().Args[0], false)
+		if _, fresh := recv.(*ssa.Alloc); !fresh {
+			ok = false
+			pos = an.InstrPos(call)
+		}
+	}
+	c.Check("R-WIRE", an.FuncName(f)+"/reply-buffer-owned", "the reply body is taken from a buffer allocated by this very call (a buffer from a shared pool can be handed to a concurrent reply before its bytes were written)", ok && n >= 1, pos, n, "Bytes() calls: %d, all on a buffer allocated here: %v", n, ok)
+}
+
+// checkBufferedDirectOversize: on the buffered direct-invoke path a response is Oversized exactly when more than
+// the per-request limit was copied (the copy reads one byte past the limit to find out).
+func checkBufferedDirectOversize(c *report.Ctx) {
+	g := fn(c, diP, "sendPayloadLimitedResponse")
+	if g == nil {
+		return
+	}
+	name := an.FuncName(g)
+	facts := an.NewFacts(g)
+	isMax := func(v ssa.Value) bool { return an.GlobalOf(an.Strip(v, true)) == diP+".MaxDirectResponseSize" }
+	isMaxPlus1 := func(v ssa.Value) bool {
+		bo, k := an.Strip(v, true).(*ssa.BinOp)
+		if !k || bo.Op != token.ADD || !isMax(bo.X) {
+			return false
+		}
+		n, kk := an.ConstInt(bo.Y)
+		return kk && n == 1
+	}
+	isWritten := func(v ssa.Value) bool { return an.IsResultOf(an.Strip(v, true), "io.Copy", 0) }
+	okLR := false
+	for _, call := range an.CallsTo(g, "io.LimitReader") {
+		if isMaxPlus1(call.Common().Args[1]) {
+			okLR = true
+		}
+	}
+	c.Check("R-WIRE", name+"/limit-plus-one", "the buffered copy reads at most one byte past the per-request limit", okLR, fpos(g), 1, "LimitReader(payload, limit+1): %v", okLR)
+	n, ok := 0, true
+	pos := fpos(g)
+	an.AllInstrs(g, func(in ssa.Instruction) {
+		call, isC := in.(ssa.CallInstruction)
+		if !isC || an.Callee(call) != "net/http.Header.Set" {
+			return
+		}
+		if s, k := an.ConstString(call.Common().Args[1]); !k || s != "End-Of-Response" {
+			return
+		}
+		if v, _ := an.ConstString(call.Common().Args[2]); v != "Oversized" {
+			return
+		}
+		n++
+		over := facts.Holds(in.Block(), func(ft an.Fact) bool {
+			r, k := an.AsRel(ft)
+			if !k {
+				return false
+			}
+			for _, rr := range []an.Rel{r, r.Flip()} {
+				if !isWritten(rr.X) {
+					continue
+				}
+				if rr.Op == token.EQL && isMaxPlus1(rr.Y) || rr.Op == token.GTR && isMax(rr.Y) || rr.Op == token.GEQ && isMaxPlus1(rr.Y) {
+					return true
+				}
+			}
+			return false
+		})
+		if !over {
+			ok = false
+			pos = an.InstrPos(in)
+		}
+	})
+	c.Check("R-GUARD", name+"/oversized-strict", "the Oversized trailer (and the ResponseTooLarge error) is given only when strictly more than the per-request limit was copied: a response of exactly the limit is Complete", ok && n == 1, pos, n, "Oversized trailer sites: %d, under written > limit: %v", n, ok)
+}
+
+// checkLaunchErrorVerbatim: the error recorded for an extension that could not be launched is the one the classifier
+// understands: the sentinel for "too many" or the supervisor's own error (os.IsPermission does not look inside a
+// wrapped error).
+func checkLaunchErrorVerbatim(c *report.Ctx) {
+	n := 0
+	var bad []string
+	pos := token.NoPos
+	for _, st := range callSites(c, "L/rapid.agentLaunchError") {
+		args := st.Call.Common().Args
+		if len(args) != 3 {
+			continue
+		}
+		n++
+		ok := false
+		for _, leaf := range an.PhiLeaves(args[2]) {
+			v := an.Strip(leaf, false)
+			if g := an.GlobalOf(v); strings.HasPrefix(g, "L/core.Err") {
+				ok = true
+				continue
+			}
+			if cl, _ := an.CallOf(v); cl != nil && strings.HasSuffix(an.Callee(cl), ".Exec") {
+				ok = true
+				continue
+			}
+			ok = false
+			bad = append(bad, an.FuncName(st.Fn)+": "+an.Path(v))
+			pos = an.InstrPos(st.Call)
+			break
+		}
+		_ = ok
+	}
+	c.Check("R-ERRID", "L/rapid.agentLaunchError/error-verbatim", "the launch error handed to the extension's state is a core sentinel or the supervisor's error itself, never a wrapped or re-made one (its classification - PermissionDenied, TooManyExtensions - is by identity and os.IsPermission)", len(bad) == 0 && n >= 2, pos, n, "call sites: %d; re-made errors: %v", n, bad)
+}
+
+// checkEmulatorInitCopy: the front end's init request reaches the core with every field it carries.
+func checkEmulatorInitCopy(c *report.Ctx) {
+	f := fn(c, rapidcP, "(*EmulatorAPI).Init")
+	if f == nil {
+		return
+	}
+	fields := []string{"AccountID", "Handler", "AwsKey", "AwsSecret", "AwsSession", "XRayDaemonAddress", "FunctionName", "FunctionVersion", "CustomerEnvironmentVariables", "RuntimeInfo", "SandboxType", "Bootstrap", "EnvironmentVariables"}
+	calls := an.CallsTo(f, srvT+".Init")
+	if len(calls) != 1 {
+		c.Check("R-WIRE", an.FuncName(f)+"/init-fields-copied", "the init request is handed to the server once", false, fpos(f), len(calls), "Server.Init calls: %d", len(calls))
+		return
+	}
+	arg := an.Strip(calls[0].Common().Args[1], false)
+	var missing, wrong []string
+	if _, isP := arg.(*ssa.Parameter); !isP {
+		got := map[string]ssa.Value{}
+		for _, st := range an.Stores(f, "L/interop.Init", "") {
+			fr, _ := an.AsField(st.Addr)
+			if fr.Base == arg {
+				got[fr.Field] = st.Val
+			}
+		}
+		for _, fld := range fields {
+			v, has := got[fld]
+			if !has {
+				missing = append(missing, fld)
+				continue
+			}
+			if !(an.IsFieldLoad(v, "L/interop.Init", fld) && an.IsInput(v)) {
+				wrong = append(wrong, fld+" <- "+an.Path(v))
+			}
+		}
+	}
+	c.Check("R-WIRE", an.FuncName(f)+"/init-fields-copied", "handler, function name and version, credentials, customer variables, bootstrap and the other fields of the front end's init request each reach the server's init request from the field of the same name (a dropped handler lets a customer variable named _HANDLER decide)", len(missing) == 0 && len(wrong) == 0, fpos(f), len(fields), "fields not copied: %v; copied from elsewhere: %v", missing, wrong)
+}
+
+// checkSplitEnvVerbatim: key and value of KEY=VALUE are the two sides of the first '=', untouched.
+func checkSplitEnvVerbatim(c *report.Ctx) {
+	f := fn(c, "L/rapidcore/env", "SplitEnvironmentVariable")
+	if f == nil {
+		return
+	}
+	n, ok := 0, true
+	pos := fpos(f)
+	var detail []string
+	for _, e := range an.Exits(f) {
+		if len(e.Vals) != 3 || !an.IsNil(e.Vals[2]) {
+			continue
+		}
+		n++
+		for i := 0; i < 2; i++ {
+			v := an.Strip(e.Vals[i], false)
+			good := false
+			// an element of strings.SplitN(s, "=", 2) or a result of strings.Cut(s, "=")
+			if u, isU := v.(*ssa.UnOp); isU && u.Op == token.MUL {
+				if ia, isI := u.X.(*ssa.IndexAddr); isI {
+					if cl, _ := an.CallOf(ia.X); cl != nil && an.Callee(cl) == "strings.SplitN" {
+						if k, _ := an.ConstInt(cl.Call.Args[2]); k == 2 {
+							if idx, isC := an.ConstInt(ia.Index); isC && int(idx) == i {
+								good = true
+							}
+						}
+					}
+				}
+			}
+			if cl, idx := an.CallOf(v); cl != nil && an.Callee(cl) == "strings.Cut" && idx == i {
+				good = true
+			}
+			if !good {
+				ok = false
+				pos = an.InstrPos(e.Ret)
+				detail = append(detail, sprintf("result %d is %s", i, an.Path(v)))
+			}
+		}
+	}
+	c.Check("R-WIRE", an.FuncName(f)+"/verbatim", "the key and the value returned are the text before and after the first '=' exactly as given (values keep leading/trailing blanks, newlines and further '=' signs)", ok && n >= 1, pos, n, "success exits: %d; %v", n, detail)
+}
+
+// checkStreamingModeOverride: a direct invoke recognised as streaming (no payload limit, or the header says so)
+// runs in streaming mode - the buffered path with "no limit" would forward nothing.
+func checkStreamingModeOverride(c *report.Ctx) {
+	f := fn(c, diP, "ReceiveDirectInvoke")
+	if f == nil {
+		return
+	}
+	k := c.P.Const("L/interop", "InvokeResponseModeStreaming")
+	want := ""
+	if k != nil {
+		want, _ = an.ConstString(k.Value)
+	}
+	var arm *ssa.BasicBlock
+	for _, call := range an.CallsTo(f, diP+".isStreamingInvoke") {
+		if v := call.Value(); v != nil {
+			for _, r := range *v.Referrers() {
+				if iff, ok := r.(*ssa.If); ok {
+					arm = iff.Block().Succs[0]
+				}
+			}
+		}
+	}
+	if arm == nil || want == "" {
+		c.Unresolved("ANCHOR", diP+".ReceiveDirectInvoke/streaming-branch", "no branch on isStreamingInvoke(...) found")
+		return
+	}
+	isSet := func(in ssa.Instruction) bool {
+		st, ok := in.(*ssa.Store)
+		if !ok {
+			return false
+		}
+		g, ok := st.Addr.(*ssa.Global)
+		if !ok || an.Path(g) != diP+".InvokeResponseMode" {
+			return false
+		}
+		s, isC := an.ConstString(st.Val)
+		return isC && s == want
+	}
+	// only the returns that hand back an invoke matter
+	seen := map[*ssa.BasicBlock]bool{}
+	leak := false
+	var walk func(b *ssa.BasicBlock)
+	walk = func(b *ssa.BasicBlock) {
+		if seen[b] || leak {
+			return
+		}
+		seen[b] = true
+		for _, in := range b.Instrs {
+			if isSet(in) {
+				return
+			}
+			if r, ok := in.(*ssa.Return); ok {
+				if len(r.Results) == 2 && an.IsNil(r.Results[1]) {
+					leak = true
+				}
+				return
+			}
+		}
+		for _, s := range b.Succs {
+			walk(s)
+		}
+	}
+	walk(arm)
+	c.Check("R-ORDER", an.FuncName(f)+"/streaming-invoke-runs-streaming", "every accepted request recognised as a streaming invoke has its response mode set to streaming (a request with payload limit -1 and no mode header must not stay buffered: the buffered copy is limited to limit+1 = 0 bytes)", !leak, fpos(f), 1, "an accepting return is reachable from the streaming branch without the override: %v", leak)
+}
+
+// relKey renders a relational test between parameters/constants of f in a canonical form.
+func relKey(f *ssa.Function, bo *ssa.BinOp) (string, bool) {
+	side := func(v ssa.Value) (string, bool) {
+		v = an.Strip(v, true)
+		if p, ok := v.(*ssa.Parameter); ok {
+			for i, q := range f.Params {
+				if q == p {
+					return sprintf("p%d", i), true
+				}
+			}
+		}
+		if n, ok := an.ConstInt(v); ok {
+			return sprintf("%d", n), true
+		}
+		return "", false
+	}
+	x, okx := side(bo.X)
+	y, oky := side(bo.Y)
+	if !okx || !oky {
+		return "", false
+	}
+	op := bo.Op
+	// constant or higher parameter to the right
+	if !strings.HasPrefix(x, "p") || (strings.HasPrefix(y, "p") && y < x) {
+		x, y = y, x
+		switch op {
+		case token.LSS:
+			op = token.GTR
+		case token.GTR:
+			op = token.LSS
+		case token.LEQ:
+			op = token.GEQ
+		case token.GEQ:
+			op = token.LEQ
+		}
+	}
+	// x < c  ==  x <= c-1 ; x > c == x >= c+1 for integers
+	if n, isC := an.ConstInt(bo.Y); isC && !strings.HasPrefix(y, "p") {
+		_ = n
+		var cv int64
+		if _, err := fmtSscan(y, &cv); err == nil {
+			switch op {
+			case token.LSS:
+				op, y = token.LEQ, sprintf("%d", cv-1)
+			case token.GTR:
+				op, y = token.GEQ, sprintf("%d", cv+1)
+			}
+		}
+	}
+	return x + " " + op.String() + " " + y, true
+}
+
+// checkBucketAcceptsValidCombinations: the token bucket refuses exactly the parameter sets that make no sense;
+// rate and burst come from independently validated headers, so any further condition refuses valid requests.
+func checkBucketAcceptsValidCombinations(c *report.Ctx) {
+	f := fn(c, bwP, "NewBucket")
+	if f == nil {
+		return
+	}
+	want := map[string]bool{"p0 <= 0": true, "p1 <= -1": true, "p2 <= 0": true, "p3 <= 0": true, "p0 < p1": true}
+	got := map[string]bool{}
+	an.AllInstrs(f, func(in ssa.Instruction) {
+		bo, ok := in.(*ssa.BinOp)
+		if !ok {
+			return
+		}
+		switch bo.Op {
+		case token.LSS, token.GTR, token.LEQ, token.GEQ, token.EQL, token.NEQ:
+		default:
+			return
+		}
+		if k, ok := relKey(f, bo); ok {
+			got[k] = true
+		}
+	})
+	var extra, missing []string
+	for k := range got {
+		if !want[k] {
+			extra = append(extra, k)
+		}
+	}
+	for k := range want {
+		if !got[k] {
+			missing = append(missing, k)
+		}
+	}
+	sort.Strings(extra)
+	sort.Strings(missing)
+	c.Check("R-GUARD", an.FuncName(f)+"/refusal-conditions", "NewBucket tests exactly: capacity <= 0, initial < 0, refill <= 0, interval <= 0, capacity < initial (p0..p3 = capacity, initial, refill, interval); a refill larger than the capacity is a legal combination of the rate and burst headers", len(extra) == 0 && len(missing) == 0, fpos(f), len(got), "tests found: %v; unexpected: %v; missing: %v", keysOf(got), extra, missing)
+}
+
+// checkMetricsNeverNil: the streaming writer always reports its metrics object (consumers dereference it).
+func checkMetricsNeverNil(c *report.Ctx) {
+	f := fn(c, bwP, "(*BandwidthLimitingWriter).GetMetrics")
+	if f == nil {
+		return
+	}
+	n, ok := 0, true
+	pos := fpos(f)
+	for _, e := range an.Exits(f) {
+		if len(e.Vals) != 1 {
+			continue
+		}
+		n++
+		if !an.IsFieldLoad(an.Strip(e.Vals[0], false), bwP+".Throttler", "metrics") {
+			ok = false
+			pos = an.InstrPos(e.Ret)
+		}
+	}
+	c.Check("R-WIRE", an.FuncName(f)+"/always-the-throttler-metrics", "GetMetrics returns the throttler's metrics object on every path (the copy result dereferences it unconditionally; a zero-byte streamed response never started the throttler)", ok && n >= 1, pos, n, "exits: %d, all returning the throttler's metrics: %v", n, ok)
+}
+
+// checkRefillAlwaysAnnounced: every tick of the refill loop offers a wake-up to a waiting writer.
+func checkRefillAlwaysAnnounced(c *report.Ctx) {
+	st := fn(c, bwP, "(*Throttler).start")
+	if st == nil {
+		return
+	}
+	var g *ssa.Function
+	var prod ssa.Instruction
+	for _, a := range an.WithAnon(st) {
+		if cs := an.CallsTo(a, bwP+".Bucket.produceTokens"); len(cs) > 0 {
+			g, prod = a, cs[0]
+		}
+	}
+	if g == nil {
+		c.Unresolved("ANCHOR", bwP+".Throttler.start/refill-loop", "no call of produceTokens in the throttler's goroutine")
+		return
+	}
+	isAnnounce := func(in ssa.Instruction) bool {
+		sel, ok := in.(*ssa.Select)
+		if !ok {
+			return false
+		}
+		for _, s := range sel.States {
+			if s.Dir == types.SendOnly && chanName(s.Chan) == "produced" {
+				return true
+			}
+		}
+		return false
+	}
+	// from just after produceTokens: reaching the next wait of the loop (another select) or a return without the offer
+	leak := false
+	seen := map[*ssa.BasicBlock]bool{}
+	var scan func(instrs []ssa.Instruction, b *ssa.BasicBlock)
+	scan = func(instrs []ssa.Instruction, b *ssa.BasicBlock) {
+		for _, in := range instrs {
+			if isAnnounce(in) {
+				return
+			}
+			if _, isSel := in.(*ssa.Select); isSel {
+				leak = true
+				return
+			}
+			if _, isRet := in.(*ssa.Return); isRet {
+				leak = true
+				return
+			}
+		}
+		for _, s := range b.Succs {
+			if !seen[s] {
+				seen[s] = true
+				scan(s.Instrs, s)
+			}
+		}
+	}
+	pb := prod.Block()
+	for i, in := range pb.Instrs {
+		if in == prod {
+			scan(pb.Instrs[i+1:], pb)
+		}
+	}
+	c.Check("R-ORDER", an.FuncName(g)+"/refill-always-announced", "after every refill the loop offers a (non-blocking) wake-up on the produced channel before it waits for the next tick: a writer that missed the tokens of this tick is woken by the next one, so the copy always terminates", !leak, an.InstrPos(prod), 1, "the next wait or a return is reachable after produceTokens without the offer: %v", leak)
 }
